@@ -6,6 +6,7 @@ import (
 	"math/bits"
 	"sort"
 	"strings"
+	"sync/atomic"
 
 	"github.com/high-moctane/mocrelay"
 	"verifkit/refmodel"
@@ -25,6 +26,9 @@ type qstate struct {
 	fk      []int    // number of optional events that must be chosen
 }
 
+// valuelessZone counts (filter, event) pairs decided by the repository's own matcher (see newQState).
+var valuelessZone atomic.Int64
+
 func newQState(bt *battery, retained []*mocrelay.Event) *qstate {
 	qs := &qstate{bt: bt, posByID: map[string]int{}}
 	qs.rs = append(qs.rs, retained...)
@@ -37,7 +41,15 @@ func newQState(bt *battery, retained []*mocrelay.Event) *qstate {
 	for fi, f := range bt.filters {
 		var m []int
 		for i, ev := range qs.rs {
-			if refmodel.MatchFilter(f, ev) {
+			match := refmodel.MatchFilter(f, ev)
+			if refmodel.MatchFilterValueless(f, ev) != match {
+				// unclaimed zone (a tag without a value element against a listed empty string): the
+				// query must agree with what the repository's own matcher - the decision procedure of
+				// the scan path and of live subscriptions - says about this pair
+				match = mocrelay.NewReqFilterMatcher(f).Match(ev)
+				valuelessZone.Add(1)
+			}
+			if match {
 				m = append(m, i)
 			}
 		}
